@@ -742,11 +742,40 @@ func (p *Peer) serverAuthExchange() error {
 	if !p.doAuth {
 		return nil
 	}
+	cooperate := false // after a multi-bit answer: go along with whatever exchange the client starts
 	for round := 0; round < 8; round++ {
-		mask, err := p.recvInt()
+		pl, _, err := p.RecvMsg()
 		if err != nil {
 			return fmt.Errorf("peer: waiting for method bitmask: %w", err)
 		}
+		if cooperate && len(pl) > 8 {
+			// Not a bitmask: the client resolved the multi-bit answer to a method
+			// on its own and started that exchange. A CLAIMTOBE opening is an int
+			// status followed by the claimed name; answer it so that the
+			// endpoint's choice becomes observable (Obs.Ran).
+			r := Reader{B: pl}
+			status, e1 := r.Int()
+			user, e2 := r.String()
+			if e1 == nil && e2 == nil && status == 1 && r.Left() == 0 {
+				p.Obs.Attempted = append(p.Obs.Attempted, "CLAIMTOBE")
+				p.Obs.RanUser = user
+				if err := p.sendInt(1); err != nil {
+					return err
+				}
+				p.Obs.Ran = "CLAIMTOBE"
+				if p.dev(SkipKeyExchangeMsg) {
+					return nil
+				}
+				return p.sendInt(0)
+			}
+			return errors.New("peer: unexpected message after a multi-bit selection")
+		}
+		rd := Reader{B: pl}
+		m64, err := rd.Int()
+		if err != nil {
+			return fmt.Errorf("peer: malformed method bitmask: %w", err)
+		}
+		mask := int(m64)
 		p.Obs.Offered = append(p.Obs.Offered, mask)
 		if mask == 0 {
 			return errors.New("peer: client gave up (bitmask 0)")
@@ -769,6 +798,11 @@ func (p *Peer) serverAuthExchange() error {
 			if sel&(sel-1) == 0 { // still a single bit
 				sel |= pickUnoffered(sel)
 			}
+			// always include the lowest runnable bit (CLAIMTOBE), offered or not, so
+			// that an endpoint which resolves a multi-bit answer by itself ends up
+			// running something this peer can complete
+			sel |= MethodBit["CLAIMTOBE"]
+			cooperate = true
 		}
 		p.Obs.Selected = append(p.Obs.Selected, sel)
 		if err := p.sendInt(sel); err != nil {
